@@ -418,11 +418,9 @@ func actions(cdc codec.Codec, d *delivery, thorough bool) []action {
 		[][]byte{{}, {0xa9, 0x05, 0x9c, 0xbb}, word1},
 		append(append([]byte{}, word1...), word1...))
 	// Fees (optional, defaulted): unset (nil) first, then every triple over
-	// {present-but-zero, default-1, default, default+1} (thorough: 1 and 2^64-1 too).
-	feeUnits := pick(thorough, []uint64{0, defaultFee - 1, defaultFee, defaultFee + 1}, 1, math.MaxUint64)
-	if thorough {
-		feeUnits = feeUnits[:5] // 0, d-1, d, d+1, 1 for all three; 2^64-1 is added on the diagonal below
-	}
+	// {present-but-zero, default-1, default, default+1} (thorough: 1 and 2^64-1 on the
+	// axes and the diagonal too).
+	feeUnits := []uint64{0, defaultFee - 1, defaultFee, defaultFee + 1}
 	feeVals := []feeVal{{}}
 	for _, a := range feeUnits {
 		for _, b := range feeUnits {
@@ -432,8 +430,10 @@ func actions(cdc codec.Codec, d *delivery, thorough bool) []action {
 		}
 	}
 	if thorough {
-		m := uint64(math.MaxUint64)
-		feeVals = append(feeVals, feeVal{true, m, m, m}, feeVal{true, m, 0, 0}, feeVal{true, 0, m, 0}, feeVal{true, 0, 0, m})
+		m, dflt := uint64(math.MaxUint64), uint64(defaultFee)
+		feeVals = append(feeVals, feeVal{true, 1, 1, 1}, feeVal{true, m, m, m},
+			feeVal{true, 1, dflt, dflt}, feeVal{true, dflt, 1, dflt}, feeVal{true, dflt, dflt, 1},
+			feeVal{true, m, 0, 0}, feeVal{true, 0, m, 0}, feeVal{true, 0, 0, m})
 	}
 	feeField := field{Name: "fees", N: len(feeVals), Show: func(i int) string { return feeVals[i].String() }}
 	// Fee payer = SenderAddress, raw account bytes (20-byte key accounts, 32-byte
@@ -451,18 +451,18 @@ func actions(cdc codec.Codec, d *delivery, thorough bool) []action {
 		[]byte{})
 	mustDistinctPadded(payers)
 	ids := pick(thorough, []uint64{1, 256, 1 << 63}, math.MaxUint64)
-	deadlines := pick(thorough, []int64{1, math.MaxInt64}, 1_700_000_600, 0)
+	deadlines := pick(thorough, []int64{1, math.MaxInt64}, 1_700_000_600)
 	turnstones := pick(thorough,
 		[]string{world.CompassID, "verif-compass-2", "0123456789abcdef0123456789abcdef"},
 		"")
 	// Gas estimate (defaulted): unset (0), fallback-1, fallback, fallback+1, 2^64-1.
 	gases := pick(thorough, []uint64{0, defaultGas - 1, defaultGas, defaultGas + 1, math.MaxUint64}, 1, 21_000)
-	valsetIDs := pick(thorough, []uint64{1, 2, 1 << 63}, 0)
+	valsetIDs := []uint64{1, 2, 1 << 63}
 	powers := pick(thorough, []uint64{1, 1 << 32}, 0)
 	bytecodes := pick(thorough,
 		[][]byte{{0x60, 0x80}, {}, append([]byte{0x60, 0x80}, be64(1)...)},
 		rep(0xfe, 33))
-	slcContracts := addrs
+	slcContracts := addrs[:3]
 	if !thorough {
 		slcContracts = addrs[:2]
 	}
@@ -605,8 +605,8 @@ func actions(cdc codec.Codec, d *delivery, thorough bool) []action {
 		sdkmath.NewIntFromUint64(1<<63))
 	nTx := len(recv) * len(amounts)
 	tseq := seqs(nTx, 0, 3)
-	nonces := pick(thorough, []uint64{1, 2, 1 << 63}, 0)
-	timeouts := pick(thorough, []uint64{1, 1 << 63}, 1_700_000_600, 0)
+	nonces := []uint64{1, 2, 1 << 63}
+	timeouts := pick(thorough, []uint64{1, 1 << 63}, 1_700_000_600)
 	batchTokens := slcContracts
 	batchTS := turnstones
 	if !thorough {
